@@ -1,4 +1,6 @@
 """C04 — shape fidelity.  Spec: SnapTrace.tla (C04_VerticesAreCentres, C04_EdgesNearInput, C04_Coverage)."""
+import json
+
 import snapcheck
 import vlib
 
@@ -10,21 +12,32 @@ def plans(tier):
     if tier == "quick":
         return [dict(gens="star,hole,collapse,rect", variants="base", n=650, W=8, nmax=12, bias=0.5, seed=s),
                 dict(gens="star,hole", variants="base", n=300, W=10, nmax=10, bias=0.4, seed=s + 1),
-                dict(gens="collapse", variants="base", n=300, W=16, nmax=10, bias=0.4, seed=s + 2)]
+                dict(gens="collapse", variants="base", n=300, W=16, nmax=10, bias=0.4, seed=s + 2),
+                dict(gens="spiral", variants="base", n=60, W=8, nmax=10, bias=0.4, seed=s + 4)]
     return [dict(gens="star,hole,collapse,rect", variants="base", n=16000, W=8, nmax=16, bias=0.5, seed=s),
             dict(gens="star,hole", variants="base", n=6000, W=10, nmax=12, bias=0.4, seed=s + 1),
             dict(gens="collapse,hole", variants="base", n=6000, W=6, nmax=12, bias=0.7, seed=s + 2),
-            dict(gens="collapse", variants="base", n=6000, W=16, nmax=10, bias=0.4, seed=s + 3)]
+            dict(gens="collapse", variants="base", n=6000, W=16, nmax=10, bias=0.4, seed=s + 3),
+            dict(gens="spiral", variants="base", n=400, W=10, nmax=10, bias=0.4, seed=s + 4)]
 
 
 def run(tier):
     return snapcheck.run_snap_property(
         PROP, tier, "SnapTrace_C04.cfg", plans(tier),
-        rule="valid lattice polygons (with holes, slivers, combs, pinches, frames); per tile matrix: every output vertex is the centre of "
+        rule="valid lattice polygons (with holes, slivers, combs, pinches, frames, multi-turn spirals); per tile matrix: every output vertex is the centre of "
              "an input vertex's pixel; end points and mid point of every output edge within half a pixel (Chebyshev, exact closed-box test) "
              "of the input boundary; every pixel centre and corner of the window +-2 pixels farther than one pixel from the input boundary "
              "is covered by the output iff covered by the input",
-        min_valid_frac=0.3)
+        min_valid_frac=0.3, classify=classify)
+
+
+def classify(inv, rec, grp):
+    known = {f["id"]: f for f in vlib.known_for(PROP)}
+    if "F13" in known and inv == "C04_Coverage" and "step" not in rec:
+        lv = snapcheck.f13_key_matches(rec)
+        if lv:
+            return ("F13", known["F13"]["what"])
+    return None
 
 
 def replay(path):
